@@ -348,4 +348,515 @@ theorem charTail_cut (ctx : Ctx) (p r : Bytes) (hp : p ≠ []) (cp : Nat) (rest 
             cases h
             exact ⟨c1 :: p2, rfl, rfl⟩
 
+theorem charBody_eq (ctx : Ctx) (p : Bytes) : charBody ctx p =
+      match charNamed p "newline" 0x0A with
+      | some x => .ok x
+      | none => match charNamed p "return" 0x0D with
+      | some x => .ok x
+      | none => match charNamed p "space" 0x20 with
+      | some x => .ok x
+      | none => match charNamed p "tab" 0x09 with
+      | some x => .ok x
+      | none =>
+      match (if ctx.cfg.clj then (charNamed p "formfeed" 0x0C).orElse (fun _ => charNamed p "backspace" 0x08) else none) with
+      | some x => .ok x
+      | none => charTail ctx p := rfl
+
+theorem charBody_cut (ctx : Ctx) (p r : Bytes) (hp : p ≠ []) (cp : Nat) (rest : Bytes)
+    (h : charBody ctx (p ++ r) = .ok (cp, rest)) (hl : r.length ≤ rest.length) :
+    ∃ p', rest = p' ++ r ∧ charBody ctx p = .ok (cp, p') := by
+  rw [charBody_eq] at h ⊢
+  cases h1 : charNamed (p ++ r) "newline" 0x0A with
+  | some x =>
+    rw [h1] at h
+    simp only [Except.ok.injEq] at h
+    subst h
+    obtain ⟨p', hx, hs⟩ := charNamed_cut_some (by decide +kernel) h1 hl
+    simp only [Prod.mk.injEq] at hx
+    rw [hs]
+    refine ⟨p', hx.2, ?_⟩
+    rw [hx.1]
+  | none =>
+    rw [h1] at h
+    rw [charNamed_cut_none h1]
+    simp only [] at h ⊢
+    clear h1
+    cases h1 : charNamed (p ++ r) "return" 0x0D with
+    | some x =>
+      rw [h1] at h
+      simp only [Except.ok.injEq] at h
+      subst h
+      obtain ⟨p', hx, hs⟩ := charNamed_cut_some (by decide +kernel) h1 hl
+      simp only [Prod.mk.injEq] at hx
+      rw [hs]
+      refine ⟨p', hx.2, ?_⟩
+      rw [hx.1]
+    | none =>
+      rw [h1] at h
+      rw [charNamed_cut_none h1]
+      simp only [] at h ⊢
+      clear h1
+      cases h1 : charNamed (p ++ r) "space" 0x20 with
+      | some x =>
+        rw [h1] at h
+        simp only [Except.ok.injEq] at h
+        subst h
+        obtain ⟨p', hx, hs⟩ := charNamed_cut_some (by decide +kernel) h1 hl
+        simp only [Prod.mk.injEq] at hx
+        rw [hs]
+        refine ⟨p', hx.2, ?_⟩
+        rw [hx.1]
+      | none =>
+        rw [h1] at h
+        rw [charNamed_cut_none h1]
+        simp only [] at h ⊢
+        clear h1
+        cases h1 : charNamed (p ++ r) "tab" 0x09 with
+        | some x =>
+          rw [h1] at h
+          simp only [Except.ok.injEq] at h
+          subst h
+          obtain ⟨p', hx, hs⟩ := charNamed_cut_some (by decide +kernel) h1 hl
+          simp only [Prod.mk.injEq] at hx
+          rw [hs]
+          refine ⟨p', hx.2, ?_⟩
+          rw [hx.1]
+        | none =>
+          rw [h1] at h
+          rw [charNamed_cut_none h1]
+          simp only [] at h ⊢
+          clear h1
+          cases hclj : ctx.cfg.clj with
+          | false =>
+            simp only [hclj, Bool.false_eq_true, ↓reduceIte] at h ⊢
+            exact charTail_cut ctx p r hp cp rest h hl
+          | true =>
+            simp only [hclj, ↓reduceIte] at h ⊢
+            cases h1 : charNamed (p ++ r) "formfeed" 0x0C with
+            | some x =>
+              rw [h1] at h
+              simp only [Option.orElse_some, Except.ok.injEq] at h
+              subst h
+              obtain ⟨p', hx, hs⟩ := charNamed_cut_some (by decide +kernel) h1 hl
+              simp only [Prod.mk.injEq] at hx
+              rw [hs]
+              simp only [Option.orElse_some]
+              refine ⟨p', hx.2, ?_⟩
+              rw [hx.1]
+            | none =>
+              rw [h1] at h
+              rw [charNamed_cut_none h1]
+              simp only [Option.orElse_none] at h ⊢
+              clear h1
+              cases h1 : charNamed (p ++ r) "backspace" 0x08 with
+              | some x =>
+                rw [h1] at h
+                simp only [Except.ok.injEq] at h
+                subst h
+                obtain ⟨p', hx, hs⟩ := charNamed_cut_some (by decide +kernel) h1 hl
+                simp only [Prod.mk.injEq] at hx
+                rw [hs]
+                refine ⟨p', hx.2, ?_⟩
+                rw [hx.1]
+              | none =>
+                rw [h1] at h
+                rw [charNamed_cut_none h1]
+                simp only [] at h ⊢
+                clear h1
+                exact charTail_cut ctx p r hp cp rest h hl
+
+theorem charBody_lt (ctx : Ctx) (p : Bytes) (x : Nat × Bytes) (hp : p ≠ []) (h : charBody ctx p = .ok x) :
+    x.2.length < p.length := by
+  rw [charBody_eq] at h
+  cases h1 : charNamed p "newline" 0x0A with
+  | some y =>
+    rw [h1] at h
+    simp only [Except.ok.injEq] at h
+    subst h
+    exact charNamed_lt h1 (by decide) hp
+  | none =>
+    rw [h1] at h
+    simp only [] at h
+    clear h1
+    cases h1 : charNamed p "return" 0x0D with
+    | some y =>
+      rw [h1] at h
+      simp only [Except.ok.injEq] at h
+      subst h
+      exact charNamed_lt h1 (by decide) hp
+    | none =>
+      rw [h1] at h
+      simp only [] at h
+      clear h1
+      cases h1 : charNamed p "space" 0x20 with
+      | some y =>
+        rw [h1] at h
+        simp only [Except.ok.injEq] at h
+        subst h
+        exact charNamed_lt h1 (by decide) hp
+      | none =>
+        rw [h1] at h
+        simp only [] at h
+        clear h1
+        cases h1 : charNamed p "tab" 0x09 with
+        | some y =>
+          rw [h1] at h
+          simp only [Except.ok.injEq] at h
+          subst h
+          exact charNamed_lt h1 (by decide) hp
+        | none =>
+          rw [h1] at h
+          simp only [] at h
+          clear h1
+          cases hclj : ctx.cfg.clj with
+          | false =>
+            simp only [hclj, Bool.false_eq_true, ↓reduceIte] at h
+            exact charTail_lt ctx p x hp h
+          | true =>
+            simp only [hclj, ↓reduceIte] at h
+            cases h1 : charNamed p "formfeed" 0x0C with
+            | some y =>
+              rw [h1] at h
+              simp only [Option.orElse_some, Except.ok.injEq] at h
+              subst h
+              exact charNamed_lt h1 (by decide) hp
+            | none =>
+              rw [h1] at h
+              simp only [Option.orElse_none] at h
+              clear h1
+              cases h1 : charNamed p "backspace" 0x08 with
+              | some y =>
+                rw [h1] at h
+                simp only [Except.ok.injEq] at h
+                subst h
+                exact charNamed_lt h1 (by decide) hp
+              | none =>
+                rw [h1] at h
+                simp only [] at h
+                clear h1
+                exact charTail_lt ctx p x hp h
+
+theorem shiftV_char (k a b cp : Nat) : shiftV k (.char (mkHdr a b) cp) = .char (mkHdr (a + k) (b + k)) cp := by
+  simp [shiftV, shiftHdr, Val.setHdr, Val.hdr, mkHdr]
+
+theorem readCharacter_cons (ctx : Ctx) (x : UInt8) (q : Bytes) (cl : List Call) :
+    readCharacter ctx { rest := x :: q, calls := cl } =
+      if q.isEmpty then
+        .err (mkErr .invalidCharacter (some (x :: q).length) (some q.length)) { rest := x :: q, calls := cl }
+      else
+        match charBody ctx q with
+        | .error ee => .err (mkErr .invalidCharacter (some (x :: q).length) (some ee)) { rest := x :: q, calls := cl }
+        | .ok (cp, rest) =>
+          if cp > 0x10FFFF then .err (mkErr .invalidCharacter (some (x :: q).length) (some rest.length)) { rest := x :: q, calls := cl }
+          else if !rest.isEmpty && !isDelim (peek rest) then
+            .err (mkErr .invalidCharacter (some (x :: q).length) (some rest.length)) { rest := x :: q, calls := cl }
+          else .ok (.char (mkHdr (x :: q).length rest.length) cp) { rest := rest, calls := cl } := by
+  rfl
+
+theorem readCharacter_cut (ctx : Ctx) (t r : Bytes) (cl : List Call) (v : Val) (st' : St)
+    (h : readCharacter ctx { rest := t ++ r, calls := cl } = .ok v st') (hl : r.length ≤ st'.rest.length) :
+    ∃ t' v', st' = { rest := t' ++ r, calls := cl } ∧
+      readCharacter ctx { rest := t, calls := cl } = .ok v' { rest := t', calls := cl } ∧ shiftV r.length v' = v := by
+  cases t with
+  | nil =>
+    exfalso
+    cases r with
+    | nil => rw [readCharacter_eq] at h; simp at h
+    | cons c cs =>
+      have hp := readCharacter_progress' ctx { rest := [] ++ c :: cs, calls := cl } (by simp)
+      rw [h] at hp
+      simp only [Progress, List.nil_append] at hp
+      omega
+  | cons x p =>
+    rw [List.cons_append, readCharacter_cons] at h
+    rw [readCharacter_cons]
+    by_cases he : (p ++ r).isEmpty = true
+    · rw [if_pos he] at h; cases h
+    · rw [if_neg he] at h
+      cases hb : charBody ctx (p ++ r) with
+      | error ee => rw [hb] at h; cases h
+      | ok y =>
+        obtain ⟨cp, rest⟩ := y
+        rw [hb] at h
+        simp only [] at h
+        by_cases h1 : cp > 0x10FFFF
+        · rw [if_pos h1] at h; cases h
+        · rw [if_neg h1] at h
+          by_cases h2 : (!rest.isEmpty && !isDelim (peek rest)) = true
+          · rw [if_pos h2] at h; cases h
+          · rw [if_neg h2] at h
+            simp only [Res.ok.injEq] at h
+            obtain ⟨hv, hst⟩ := h
+            subst hst
+            simp only [] at hl
+            by_cases hpe : p = []
+            · exfalso
+              subst hpe
+              rw [List.nil_append] at hb he
+              have hr : r ≠ [] := by intro hr; rw [hr] at he; exact he rfl
+              have := charBody_lt ctx r _ hr hb
+              simp only [] at this
+              omega
+            · obtain ⟨p', hrest, hs⟩ := charBody_cut ctx p r hpe cp rest hb hl
+              subst hrest
+              have hpne : p.isEmpty = false := by
+                cases p with
+                | nil => exact absurd rfl hpe
+                | cons _ _ => rfl
+              rw [hpne, hs]
+              simp only [Bool.false_eq_true, ↓reduceIte]
+              rw [if_neg h1]
+              have h2' : ¬ ((!p'.isEmpty && !isDelim (peek p')) = true) := by
+                cases p' with
+                | nil => simp
+                | cons c cs => exact h2
+              rw [if_neg h2']
+              refine ⟨p', _, rfl, rfl, ?_⟩
+              rw [shiftV_char, ← hv]
+              simp only [List.length_cons, List.length_append]
+              congr 2
+              omega
+
+/-! ## identifiers -/
+
+theorem scanIdentRawAux_len_ge : ∀ (s : Bytes) (i : Nat) (sl : Option Nat) (prev col : Bool),
+    i ≤ (scanIdentRawAux i sl prev col s).len := by
+  intro s
+  induction s with
+  | nil => intro i sl prev col; simp [scanIdentRawAux]
+  | cons c cs ih =>
+    intro i sl prev col
+    rw [scanIdentRawAux]
+    split
+    · exact Nat.le_refl _
+    · have := ih (i + 1) (if (c == 0x2F && sl.isNone) = true then some i else sl) (c == 0x3A) (col || (c == 0x3A && prev))
+      simp only [] at this ⊢
+      omega
+
+theorem scanIdentRawAux_len_le : ∀ (s : Bytes) (i : Nat) (sl : Option Nat) (prev col : Bool),
+    (scanIdentRawAux i sl prev col s).len ≤ i + s.length := by
+  intro s
+  induction s with
+  | nil => intro i sl prev col; simp [scanIdentRawAux]
+  | cons c cs ih =>
+    intro i sl prev col
+    rw [scanIdentRawAux]
+    split
+    · simp
+    · have := ih (i + 1) (if (c == 0x2F && sl.isNone) = true then some i else sl) (c == 0x3A) (col || (c == 0x3A && prev))
+      simp only [List.length_cons] at this ⊢
+      omega
+
+theorem scanIdentRawAux_cut : ∀ (u r : Bytes) (i : Nat) (sl : Option Nat) (prev col : Bool),
+    (scanIdentRawAux i sl prev col (u ++ r)).len ≤ i + u.length →
+    scanIdentRawAux i sl prev col (u ++ r) = scanIdentRawAux i sl prev col u := by
+  intro u
+  induction u with
+  | nil =>
+    intro r i sl prev col h
+    cases r with
+    | nil => rfl
+    | cons c cs =>
+      simp only [List.nil_append, List.length_nil, Nat.add_zero] at h ⊢
+      rw [scanIdentRawAux] at h ⊢
+      by_cases hd : isDelim c = true
+      · rw [if_pos hd]; simp [scanIdentRawAux]
+      · rw [if_neg hd] at h
+        have := scanIdentRawAux_len_ge cs (i + 1) (if (c == 0x2F && sl.isNone) = true then some i else sl) (c == 0x3A)
+          (col || (c == 0x3A && prev))
+        simp only [] at h
+        omega
+  | cons c cs ih =>
+    intro r i sl prev col h
+    simp only [List.cons_append] at h ⊢
+    rw [scanIdentRawAux] at h ⊢
+    rw [scanIdentRawAux]
+    by_cases hd : isDelim c = true
+    · rw [if_pos hd, if_pos hd]
+    · rw [if_neg hd] at h ⊢
+      rw [if_neg hd]
+      simp only [] at h ⊢
+      apply ih
+      simp only [List.length_cons] at h
+      omega
+
+theorem identSplit_len (len : Nat) (sl : Option Nat) (h : (identSplit len sl).valid = true) :
+    (identSplit len sl).len = len := by
+  unfold identSplit at h ⊢
+  split
+  · rename_i h0; simp [h0] at h
+  · rename_i h0
+    split
+    · split
+      · rename_i h1; simp at h1; simp [h1]
+      · split
+        · rename_i h1 h2; simp [h0, h1, h2] at h
+        · split
+          · rename_i h1 h2 h3; simp [h0, h1, h2, h3] at h
+          · rfl
+    · rfl
+
+/-- a valid scan consumed exactly the raw token -/
+theorem scanIdent_len_raw (s : Bytes) (h : (scanIdent s).valid = true) :
+    (scanIdent s).len = (scanIdentRaw s).len ∧ scanIdent s = identSplit (scanIdentRaw s).len (scanIdentRaw s).slash := by
+  rw [scanIdent_eq_spec] at h ⊢
+  unfold scanIdentSpec at h ⊢
+  simp only [] at h ⊢
+  by_cases hc : (scanIdentRaw s).colons = true
+  · rw [if_pos hc] at h; cases h
+  · rw [if_neg hc] at h ⊢
+    exact ⟨identSplit_len _ _ h, rfl⟩
+
+theorem scanIdent_cut (t r : Bytes) (h : (scanIdent (t ++ r)).valid = true)
+    (hl : (scanIdent (t ++ r)).len ≤ t.length) : scanIdent t = scanIdent (t ++ r) := by
+  have h1 := (scanIdent_len_raw _ h).1
+  have hraw : scanIdentRaw (t ++ r) = scanIdentRaw t := by
+    unfold scanIdentRaw
+    apply scanIdentRawAux_cut
+    rw [h1] at hl
+    unfold scanIdentRaw at hl
+    omega
+  rw [scanIdent_eq_spec, scanIdent_eq_spec]
+  unfold scanIdentSpec
+  rw [hraw]
+
+/-- what `readIdentifier` does with a valid scan -/
+def identBody (sc : IdentScan) (tok : Bytes) (start stop : Nat) (st' : St) : Res :=
+  let h : Hdr := (mkHdr (start) (stop))
+  let serr : Res := .err (mkErr .invalidSyntax (some start) (some stop)) st'
+  match sc.ns with
+  | none =>
+    let name := tok
+    if peek name == 0x3A then
+      let kw := name.tail
+      if kw.isEmpty then serr
+      else if peek kw == 0x3A then serr
+      else .ok (.kw h none kw) st'
+    else if name == strBytes "nil" then .ok (.nil h) st'
+    else if name == strBytes "true" then .ok (.bool h true) st'
+    else if name == strBytes "false" then .ok (.bool h false) st'
+    else .ok (.sym h none none name) st'
+  | some k =>
+    let ns := tok.take k
+    let name := (tok.drop (k + 1)).take sc.nameLen
+    if peek ns == 0x3A then
+      let kns := ns.tail
+      if kns.isEmpty then serr
+      else if peek kns == 0x3A then serr
+      else .ok (.kw h (some kns) name) st'
+    else .ok (.sym h none (some ns) name) st'
+
+theorem readIdentifier_eq (ctx : Ctx) (s : Bytes) (cl : List Call) :
+    readIdentifier ctx { rest := s, calls := cl } =
+      if !(scanIdent s).valid then .err (mkErr .invalidSyntax (some s.length) (some s.length)) { rest := s, calls := cl }
+      else identBody (scanIdent s) (s.take (scanIdent s).len) s.length (s.drop (scanIdent s).len).length
+        { rest := s.drop (scanIdent s).len, calls := cl } := by
+  rfl
+
+theorem shiftV_kw (k a b : Nat) (ns : Option Bytes) (nm : Bytes) :
+    shiftV k (.kw (mkHdr a b) ns nm) = .kw (mkHdr (a + k) (b + k)) ns nm := by
+  simp [shiftV, shiftHdr, Val.setHdr, Val.hdr, mkHdr]
+theorem shiftV_nil (k a b : Nat) : shiftV k (.nil (mkHdr a b)) = .nil (mkHdr (a + k) (b + k)) := by
+  simp [shiftV, shiftHdr, Val.setHdr, Val.hdr, mkHdr]
+theorem shiftV_bool (k a b : Nat) (x : Bool) : shiftV k (.bool (mkHdr a b) x) = .bool (mkHdr (a + k) (b + k)) x := by
+  simp [shiftV, shiftHdr, Val.setHdr, Val.hdr, mkHdr]
+theorem shiftV_sym (k a b : Nat) (ns : Option Bytes) (nm : Bytes) :
+    shiftV k (.sym (mkHdr a b) none ns nm) = .sym (mkHdr (a + k) (b + k)) none ns nm := by
+  simp [shiftV, shiftO, shiftHdr, mkHdr]
+
+theorem identBody_shift (sc : IdentScan) (tok : Bytes) (a b k : Nat) (st1 st2 : St) (v : Val) (st'' : St)
+    (h : identBody sc tok (a + k) (b + k) st1 = .ok v st'') :
+    st'' = st1 ∧ ∃ v', identBody sc tok a b st2 = .ok v' st2 ∧ shiftV k v' = v := by
+  unfold identBody at h ⊢
+  simp only [] at h ⊢
+  cases hns : sc.ns with
+  | none =>
+    rw [hns] at h
+    simp only [] at h ⊢
+    by_cases c1 : (peek tok == 0x3A) = true
+    · rw [if_pos c1] at h ⊢
+      by_cases c2 : tok.tail.isEmpty = true
+      · rw [if_pos c2] at h; cases h
+      · rw [if_neg c2] at h ⊢
+        by_cases c3 : (peek tok.tail == 0x3A) = true
+        · rw [if_pos c3] at h; cases h
+        · rw [if_neg c3] at h ⊢
+          cases h
+          exact ⟨rfl, _, rfl, shiftV_kw _ _ _ _ _⟩
+    · rw [if_neg c1] at h ⊢
+      by_cases c2 : (tok == strBytes "nil") = true
+      · rw [if_pos c2] at h ⊢
+        cases h
+        exact ⟨rfl, _, rfl, shiftV_nil _ _ _⟩
+      · rw [if_neg c2] at h ⊢
+        by_cases c3 : (tok == strBytes "true") = true
+        · rw [if_pos c3] at h ⊢
+          cases h
+          exact ⟨rfl, _, rfl, shiftV_bool _ _ _ _⟩
+        · rw [if_neg c3] at h ⊢
+          by_cases c4 : (tok == strBytes "false") = true
+          · rw [if_pos c4] at h ⊢
+            cases h
+            exact ⟨rfl, _, rfl, shiftV_bool _ _ _ _⟩
+          · rw [if_neg c4] at h ⊢
+            cases h
+            exact ⟨rfl, _, rfl, shiftV_sym _ _ _ _ _⟩
+  | some j =>
+    rw [hns] at h
+    simp only [] at h ⊢
+    by_cases c1 : (peek (tok.take j) == 0x3A) = true
+    · rw [if_pos c1] at h ⊢
+      by_cases c2 : (tok.take j).tail.isEmpty = true
+      · rw [if_pos c2] at h; cases h
+      · rw [if_neg c2] at h ⊢
+        by_cases c3 : (peek (tok.take j).tail == 0x3A) = true
+        · rw [if_pos c3] at h; cases h
+        · rw [if_neg c3] at h ⊢
+          cases h
+          exact ⟨rfl, _, rfl, shiftV_kw _ _ _ _ _⟩
+    · rw [if_neg c1] at h ⊢
+      cases h
+      exact ⟨rfl, _, rfl, shiftV_sym _ _ _ _ _⟩
+
+theorem readIdentifier_cut (ctx : Ctx) (t r : Bytes) (cl : List Call) (v : Val) (st' : St)
+    (h : readIdentifier ctx { rest := t ++ r, calls := cl } = .ok v st') (hl : r.length ≤ st'.rest.length) :
+    ∃ t' v', st' = { rest := t' ++ r, calls := cl } ∧
+      readIdentifier ctx { rest := t, calls := cl } = .ok v' { rest := t', calls := cl } ∧ shiftV r.length v' = v := by
+  rw [readIdentifier_eq] at h ⊢
+  by_cases hv : (!(scanIdent (t ++ r)).valid) = true
+  · rw [if_pos hv] at h; cases h
+  · rw [if_neg hv] at h
+    have hv' : (scanIdent (t ++ r)).valid = true := by simpa using hv
+    have hle : (scanIdent (t ++ r)).len ≤ (t ++ r).length := by
+      rw [(scanIdent_len_raw _ hv').1]
+      have := scanIdentRawAux_len_le (t ++ r) 0 none false false
+      unfold scanIdentRaw
+      omega
+    have hst := (identBody_shift _ _ _ _ 0 _ { rest := [], calls := [] } _ _ h).1
+    have hL : (scanIdent (t ++ r)).len ≤ t.length := by
+      rw [hst] at hl
+      simp only [List.length_drop, List.length_append] at hl hle
+      omega
+    have hsc := scanIdent_cut t r hv' hL
+    rw [hsc]
+    rw [if_neg hv]
+    rw [List.take_append_of_le_length hL, List.drop_append_of_le_length hL, List.length_append,
+      List.length_append] at h
+    obtain ⟨hst', v', hs, hsh⟩ := identBody_shift _ _ _ _ _ _
+      { rest := List.drop (scanIdent (t ++ r)).len t, calls := cl } _ _ h
+    exact ⟨_, v', hst', hs, hsh⟩
+
+/-- the identifier reader never answers "closing delimiter" -/
+theorem readIdentifier_not_closer (ctx : Ctx) (st st' : St) : readIdentifier ctx st ≠ .closer st' := by
+  unfold readIdentifier
+  simp only []
+  repeat' split
+  all_goals (intro h; cases h)
+
+/-- kind of the value is preserved by the cut (needed by the tagged-literal reader, which tests
+    whether the tag is a symbol) -/
+theorem shiftV_isSym (k : Nat) (v : Val) :
+    (∃ h md ns nm, shiftV k v = .sym h md ns nm) ↔ (∃ h md ns nm, v = .sym h md ns nm) := by
+  cases v <;> simp [shiftV, Val.setHdr]
+
 end Edn.Proofs
